@@ -18,7 +18,7 @@ use varpulis_cluster::{ClusterConnector, SharedCoordinator};
 use varpulis_runtime::tenant::{SharedTenantManager, TenantManager, TenantQuota};
 use warp::Filter;
 
-pub const NAMES: &[&str] = &["C29"];
+pub const NAMES: &[&str] = &["C29", "C29-raft-idle"];
 
 #[derive(Clone, Debug)]
 struct RouteRow {
@@ -407,6 +407,8 @@ async fn run_cluster(ctx: &mut Ctx, routes: &[RouteRow], tmp: &std::path::Path) 
             // metrics at an arbitrary later moment; a refused request must meet a node nothing has reached
             let boot = varpulis_cluster::raft::bootstrap(1, &["http://127.0.0.1:9".to_string()], None).await.expect("raft bootstrap");
             let raft = boot.raft.clone();
+            // `bootstrap` initialises a single-node cluster: let the election and the first log entry settle
+            raft_settle(&raft).await;
             match &conf.raft_explicit {
                 None => drive!(raft, api, adm, raft_part, varpulis_cluster::api::cluster_routes_with_raft(coord.clone(), rbac.clone(), raft.clone(), None)
                     .recover(varpulis_cluster::api::handle_rejection)),
@@ -491,7 +493,34 @@ async fn run_cli(ctx: &mut Ctx, routes: &[RouteRow]) {
     }
 }
 
-pub fn run(ctx: &mut Ctx, _name: &str) {
+/// wait until the freshly bootstrapped single-node cluster has elected itself and applied its log
+async fn raft_settle(raft: &varpulis_cluster::raft::routes::SharedRaft) {
+    for _ in 0..1000 {
+        let (ok, _) = { let m = raft.metrics().borrow().clone();
+            (format!("{:?}", m.state) == "Leader" && m.last_applied.map(|l| l.index) == m.last_log_index && m.last_log_index.is_some(), ()) };
+        if ok { break; }
+        tokio::time::sleep(std::time::Duration::from_millis(2)).await;
+    }
+    let _ = raft_snapshot(raft).await;
+}
+
+/// diagnostic: what does a raft node nothing has ever reached do on its own within 5 s?
+fn raft_idle(ctx: &mut Ctx) {
+    let rt = tokio::runtime::Builder::new_multi_thread().worker_threads(2).enable_all().build().expect("runtime");
+    rt.block_on(async {
+        let boot = varpulis_cluster::raft::bootstrap(1, &["http://127.0.0.1:9".to_string()], None).await.expect("raft bootstrap");
+        let t0 = std::time::Instant::now();
+        let mut last = String::new();
+        while t0.elapsed().as_millis() < 5000 {
+            let now = raft_read(&boot.raft);
+            if now != last { ctx.case(&format!("idle {}ms", t0.elapsed().as_millis()), &now.replace('\n', " ")); last = now; }
+            tokio::time::sleep(std::time::Duration::from_millis(5)).await;
+        }
+    });
+}
+
+pub fn run(ctx: &mut Ctx, name: &str) {
+    if name == "C29-raft-idle" { return raft_idle(ctx); }
     let routes = load_routes();
     ctx.notes.push(format!("{} extracted code routes driven (cluster {}, cli {})", routes.len(),
         routes.iter().filter(|r| r.app == "cluster").count(), routes.iter().filter(|r| r.app == "cli").count()));
